@@ -20,6 +20,8 @@ import (
 
 var R = stats.New("C02")
 
+func init() { gen.Counted = true }
+
 func TestMain(m *testing.M) { R.Main(m) }
 
 type Case struct {
